@@ -42,6 +42,7 @@ import (
 	"pgregory.net/rapid"
 
 	"verif/internal/ev"
+	"verif/internal/synthfont"
 	"verif/internal/textgen"
 )
 
@@ -333,7 +334,15 @@ func record(p Program) {
 	}
 	ev.LabelN("ops", int64(total))
 	for _, e := range p.Pool {
-		ev.Label("font:" + e.Kind + ":" + filepath.Base(e.File))
+		if e.Synth != nil {
+			long := ""
+			if e.Synth.Back > 64 || e.Synth.Look > 64 || e.Synth.Input > 64 {
+				long = ":longer-than-64"
+			}
+			ev.Label("font:synthetic:" + e.Synth.Kind + long)
+		} else {
+			ev.Label("font:" + e.Kind + ":" + filepath.Base(e.File))
+		}
 	}
 	labels = append(labels, fmt.Sprintf("pool-size=%d", len(p.Pool)))
 	key, _ := json.Marshal(p)
@@ -456,7 +465,39 @@ func genLang(t *rapid.T, pf *poolFont) string {
 	return rapid.SampledFrom(langs).Draw(t, "lang")
 }
 
+// genSynthText draws a text for a synthetic font: the letters its generated lookups cover, repeated
+// so as to be at least as long as backtrack + input + lookahead (so that the long contexts match),
+// now and then interrupted by a rune they do not cover.
+func genSynthText(t *rapid.T, pf *poolFont) []rune {
+	sp := pf.Synth
+	n := sp.Back + sp.Input + sp.Look + rapid.IntRange(0, 8).Draw(t, "synthextra")
+	if sp.Kind == synthfont.KindMultipleChain || sp.Kind == synthfont.KindGrowShrink {
+		n = rapid.IntRange(1, 8).Draw(t, "synthshort") // these fonts multiply the glyphs
+	}
+	if n < 1 {
+		n = 1
+	}
+	if n > 280 {
+		n = 280
+	}
+	step := rapid.IntRange(0, len(pf.covered)-1).Draw(t, "synthstep")
+	first := rapid.IntRange(0, len(pf.covered)-1).Draw(t, "synthfirst")
+	txt := make([]rune, n)
+	for i := range txt {
+		txt[i] = pf.covered[(first+i*step)%len(pf.covered)]
+	}
+	if k := rapid.IntRange(0, 5).Draw(t, "synthothers"); k >= 4 && len(pf.other) > 0 {
+		for ; k >= 4; k-- {
+			txt[rapid.IntRange(0, n-1).Draw(t, "synthotherat")] = rapid.SampledFrom(pf.other).Draw(t, "synthother")
+		}
+	}
+	return txt
+}
+
 func genText(t *rapid.T, pf *poolFont, extraScripts []string, maxLen int, nonEmpty bool) []rune {
+	if pf.Synth != nil && len(pf.covered) > 0 && rapid.IntRange(0, 4).Draw(t, "synthtext") != 0 {
+		return genSynthText(t, pf)
+	}
 	scripts := append(append([]string(nil), pf.scripts...), extraScripts...)
 	txt := textgen.Text(t, textgen.Opts{MaxLen: maxLen, FontPool: pf.runes, Scripts: scripts, Hostile: 5})
 	if nonEmpty && len(txt) == 0 {
@@ -583,6 +624,18 @@ func genOp(t *rapid.T, pool []*poolFont, kind string, f int) Op {
 		op.Script = genScript(t, pf)
 		op.Lang = genLang(t, pf)
 		op.Feat = genFeats(t, pf)
+		if pf.Synth != nil {
+			// the generated lookups hang on one feature of the Latin / default script
+			if rapid.IntRange(0, 3).Draw(t, "synthfeature") != 0 {
+				op.Feat = append(op.Feat, Feat{Tag: pf.Synth.Feature, Value: 1})
+			}
+			if rapid.IntRange(0, 2).Draw(t, "synthscript") != 0 {
+				op.Script, op.Lang = "Latn", rapid.SampledFrom([]string{"en", "", "fr"}).Draw(t, "synthlang")
+			}
+			if rapid.IntRange(0, 3).Draw(t, "synthdir") != 0 {
+				op.Dir = 0
+			}
+		}
 		op.Size = rapid.SampledFrom(sizes).Draw(t, "size")
 		if kind == kHbShape {
 			op.Dir &= 3
@@ -650,9 +703,63 @@ func genPool(t *rapid.T, cands [][]*poolFont) []*poolFont {
 	return pool
 }
 
+// chooser adapts rapid to synthfont.Chooser; with long set, the context kinds and the four largest
+// lengths (beyond the shaper's 64-glyph context limit) are forced.
+type chooser struct {
+	t    *rapid.T
+	long bool
+}
+
+func (c chooser) Intn(label string, n int) int {
+	if c.long {
+		switch label {
+		case "synthkind": // chain-context or reverse-chain
+			for i, k := range synthfont.Kinds {
+				if k == synthfont.KindChainContext && rapid.IntRange(0, 1).Draw(c.t, "longkind") == 0 {
+					return i
+				}
+			}
+			for i, k := range synthfont.Kinds {
+				if k == synthfont.KindReverseChain {
+					return i
+				}
+			}
+		case "chain":
+			return 1
+		case "back", "look":
+			if n > 4 && rapid.IntRange(0, 3).Draw(c.t, label+"long") != 0 {
+				return n - 1 - rapid.IntRange(0, 3).Draw(c.t, label+"top")
+			}
+		}
+	}
+	if n <= 1 {
+		return 0
+	}
+	return rapid.IntRange(0, n-1).Draw(c.t, label)
+}
+
+// genSynthetic draws 0–2 fonts of the stratum "synthetic" (Spec stored decoded in the program).
+func genSynthetic(t *rapid.T) ([]*poolFont, error) {
+	var out []*poolFont
+	for i, n := 0, rapid.SampledFrom([]int{0, 0, 1, 1, 1, 2}).Draw(t, "syntheticfonts"); i < n; i++ {
+		sp := synthfont.DrawSpec(chooser{t, rapid.IntRange(0, 1).Draw(t, "longcontexts") == 0})
+		pf, err := loadEntry(PoolEntry{Kind: "synthetic", Synth: &sp})
+		if err != nil {
+			return nil, fmt.Errorf("synthetic font %+v: %v", sp, err)
+		}
+		out = append(out, pf)
+	}
+	return out, nil
+}
+
 func genProgram(t *rapid.T, cands [][]*poolFont) Program {
 	p := Program{}
 	pool := genPool(t, cands)
+	synth, err := genSynthetic(t)
+	if err != nil {
+		t.Fatalf("INFRASTRUCTURE: %v", err)
+	}
+	pool = append(pool, synth...)
 	for _, pf := range pool {
 		p.Pool = append(p.Pool, pf.PoolEntry)
 	}
@@ -662,6 +769,9 @@ func genProgram(t *rapid.T, cands [][]*poolFont) Program {
 	// goroutines concentrate on one or two fonts of the pool
 	hot := rapid.IntRange(0, len(pool)-1).Draw(t, "hotfont")
 	hot2 := rapid.IntRange(0, len(pool)-1).Draw(t, "hotfont2")
+	if len(synth) > 0 {
+		hot2 = len(pool) - 1 // a synthetic font is always one of the two favoured fonts
+	}
 	pick := func() int {
 		switch k := rapid.IntRange(0, 9).Draw(t, "fontkind"); {
 		case k < 6:
